@@ -226,7 +226,7 @@ def run(ctx):
     mat = detcomp.matrix(srcs, exe_c, in_process=reps, processes=procs)
     n_comp = len(srcs)
     n_compiles = sum(v["count"] for m in mat for v in m.values()) * 2      # inkcompile compiles every case twice
-    cfind = detcomp.findings(srcs, mat, exe_d)
+    cfind = detcomp.findings(srcs, mat, exe_d, exe=exe_c)
     outcome_kinds = {}
     for m in mat:
         for k in m:
@@ -239,7 +239,7 @@ def run(ctx):
             if small != f["source"]:
                 base = detcomp.write_includes(f["files"], "c03_shrunk") if f["files"] else None
                 s2 = [dict(src=small, files=f["files"], base=base, script=f["script"], explore=f["explore"])]
-                f2 = detcomp.findings(s2, detcomp.matrix(s2, exe_c, in_process=16, processes=3), exe_d)
+                f2 = detcomp.findings(s2, detcomp.matrix(s2, exe_c, in_process=16, processes=3, all_json=True), exe_d, exe=exe_c)
                 if f2 and (f2[0]["played"] or not f["played"]):
                     f = f2[0]
         except Exception:
@@ -382,7 +382,7 @@ def replay(ctx, payload):
         files = r.get("files") or {}
         base = detcomp.write_includes(files, "c03_replay") if files else None
         s = [dict(src=r["source"], files=files, base=base, script=r.get("script") or [], explore=r.get("explore"))]
-        mat = detcomp.matrix(s, compilerun.build(), in_process=16, processes=4)
+        mat = detcomp.matrix(s, compilerun.build(), in_process=16, processes=4, all_json=True)
         n += sum(v["count"] for v in mat[0].values()) * 2
         f = detcomp.findings(s, mat, vlib.build_harness())
         if f:
